@@ -141,3 +141,8 @@ mod test {
         assert_eq!("\\fItest\\fP", output);
     }
 }
+
+#[cfg(kani)]
+mod verif_kani {
+    include!(concat!(env!("PACAK_BPAF_VERIF_DIR"), "/kani/escape.rs"));
+}
